@@ -78,6 +78,9 @@ def run_once(name, space, table_fn, seed, nth, ambient, n_iter, cfg, feas=None):
                 random_seed=opt.random_seed, events=construct_events, later_events=sl.events[len(construct_events):], foreign=sl.foreign)
 
 
+NESTED = set(gen.POPULATION) | {"PowellsMethod"}      # classes whose nested optimizers draw their own seed
+
+
 def run(ctx):
     u = ctx.unit("K:seeding events of construction", "K",
                  "constructing every optimizer class (random_state in {None, int}, nth_process in {None, 0, 2}, populations, "
@@ -107,6 +110,8 @@ def run(ctx):
                 cfg.pop("population", None)
             if name in gen.SMBO and name != "LipschitzOptimizer" and rng.random() < 0.5:
                 cfg["sampling"] = {"random": rng.choice([10, 20])}
+            if name == "GridSearchOptimizer":
+                cfg["rand_rest_p"] = 0.5
             feas = None
             if rng.random() < 0.3:
                 feas, _ = gen.gen_constraint(rng, space0, kind=rng.choice(["halfspace", "mask"]))
@@ -124,7 +129,7 @@ def run(ctx):
                 ctx.monitor_nontrivial.add(key)
                 n = nth or 0
                 for r in (a, b):
-                    lits.append("(seeding_ok (Some %s) %s %s %s)" % (cz(seed), copt(nth), cz(r["random_seed"]), clist(r["events"], ev_lit)))
+                    lits.append("(seeding_ok %s (Some %s) %s %s %s)" % (cbool(name not in NESTED), cz(seed), copt(nth), cz(r["random_seed"]), clist(r["events"], ev_lit)))
                     cases.append(dict(optimizer=name, random_state=seed, nth_process=nth, cfg=jsonable(cfg), events=r["events"][:8], random_seed=r["random_seed"]))
                     u.count(key + (len(cases),), nontrivial=len(r["events"]) > 2)
                 if a["random_seed"] != seed + n:
@@ -142,7 +147,7 @@ def run(ctx):
                     ctx.blocked.append(dict(optimizer=name, exc=[type(e).__name__, str(e)[:100]]))
                     continue
                 ctx.monitor_runs += 2
-                lits.append("(seeding_ok None %s %s %s)" % (copt(nth), cz(c["random_seed"]), clist(c["events"], ev_lit)))
+                lits.append("(seeding_ok %s None %s %s %s)" % (cbool(name not in NESTED), copt(nth), cz(c["random_seed"]), clist(c["events"], ev_lit)))
                 cases.append(dict(optimizer=name, random_state=None, nth_process=nth, events=c["events"][:8], random_seed=c["random_seed"]))
                 u.count((name, "none", nth, rep), nontrivial=len(c["events"]) > 3)
                 if jsonable(c["data"]) != jsonable(d["data"]) or c["best_score"] != d["best_score"]:
